@@ -290,4 +290,59 @@ theorem writer_sorts_as_modelled :
       [ "sorted(set((op.type, op.attrs.get(\"custom_code\", \"\"), op.version) for op in all_ops))"
       , "sorted((tens.name, idx, tens) for idx, tens in enumerate(tensor_set))" ] := by decide
 
+/-! ## The caller's buffer is not modified (round 6) -/
+
+/-- the executable judge of the buffer clause decides it -/
+theorem inputKept_iff (l : List BufObs) : inputKept l = true ↔ InputKept l := by
+  unfold inputKept InputKept BufObs.kept
+  simp only [List.all_eq_true, Bool.and_eq_true, beq_iff_eq]
+
+/-- one modified buffer anywhere is enough to reject -/
+theorem inputKept_false_of_modified (l : List BufObs) (o : BufObs) (ho : o ∈ l) (hm : ¬ o.kept) : inputKept l = false := by
+  cases h : inputKept l with
+  | false => rfl
+  | true => exact absurd ((inputKept_iff l).mp h o ho) hm
+
+/-- a rejected list names a call that did modify its buffer -/
+theorem firstModified_spec (l : List BufObs) (k : Nat) (h : firstModified l = some k) :
+    ∃ o, l[k]? = some o ∧ ¬ o.kept := by
+  unfold firstModified at h
+  rw [List.findIdx?_eq_some_iff_getElem] at h
+  obtain ⟨hk, hp, _⟩ := h
+  refine ⟨l[k], List.getElem?_eq_getElem hk, ?_⟩
+  unfold BufObs.kept
+  intro hc
+  simp [hc.1, hc.2] at hp
+
+/-- compile the buffer the previous call left behind, `n` more times -/
+def again {β ω : Type} (run : β → ω × β) : Nat → ω × β → ω × β
+  | 0, s => s
+  | n + 1, s => again run n (run s.2)
+
+/-- **compiling a caller-owned buffer again.**  An entry point that works on the caller's buffer is a function
+`run : buffer → (output, buffer afterwards)`.  If it keeps every buffer (the new clause), then compiling the *same buffer
+object* `n` more times gives the output of the first compilation every time and the buffer still holds the original
+model: the history "A; A; …; A on one caller-owned buffer" is the same request each time, so the determinism Spec
+(`Deterministic`) asks for one observation.  For every `run` (no assumption on the compiler beyond the clause) and unbounded `n`. -/
+theorem recompile_kept_buffer {β ω : Type} (run : β → ω × β) (hkeep : ∀ b, (run b).2 = b) (b : β) (n : Nat) :
+    again run n (run b) = run b := by
+  induction n with
+  | zero => rfl
+  | succ n ih =>
+    unfold again
+    rw [hkeep, ih]
+
+/-- … and the clause is needed: a compiler that zeroes one field of the model it is handed and whose output depends on that
+field (the PAD channel padding of seeded change C14-r6m2: first output pads 8 channels, the buffer then says 0) gives a
+different output the second time although each compilation, taken alone, is a function of its request. -/
+theorem modified_buffer_breaks_recompile_witness :
+    ∃ (run : Nat → Nat × Nat), (∀ b, (run b).1 = b) ∧ (run (run 8).2).1 ≠ (run 8).1 :=
+  ⟨fun b => (b, 0), fun _ => rfl, by decide⟩
+
+example : inputKept [⟨1360, "9f2c", 1360, "9f2c"⟩, ⟨1360, "9f2c", 1360, "9f2c"⟩] = true := by decide
+example : inputKept [⟨1360, "9f2c", 1360, "9f2c"⟩, ⟨1360, "9f2c", 1360, "51aa"⟩] = false ∧
+    firstModified [⟨1360, "9f2c", 1360, "9f2c"⟩, ⟨1360, "9f2c", 1360, "51aa"⟩] = some 1 := by decide
+example : again (fun b : Nat => (b * 2, b)) 3 ((fun b : Nat => (b * 2, b)) 21) = (42, 21) :=
+  recompile_kept_buffer (fun b => (b * 2, b)) (fun _ => rfl) 21 3
+
 end VelaVerif.Props.C14
